@@ -57,6 +57,7 @@ type ringWorld struct {
 	// counters
 	links, unlinks, removed, joined, lazy           int
 	edgeZero, edgeNeg, edgeMultiple, selfLink, len1 int
+	doReent, doSkipped                              int
 }
 
 func newRingWorld() *ringWorld {
@@ -468,6 +469,11 @@ func runRingSeeded(idx int, g group) {
 		if fail == nil {
 			fail = w.observe(true)
 		}
+		if fail == nil {
+			if fail = w.doReentrant(rng); fail == nil && w.doReent > 0 {
+				fail = w.observe(true)
+			}
+		}
 		if fail != nil {
 			rec.Violation(idx, fail.sig, fail.msg, w.replay(map[string]any{"seed": mon.Seed(), "group": idx, "sub": sub}))
 		}
@@ -480,6 +486,8 @@ func runRingSeeded(idx int, g group) {
 		tot.joined += w.joined
 		tot.unlinks += w.unlinks
 		tot.lazy += w.lazy
+		tot.doReent += w.doReent
+		tot.doSkipped += w.doSkipped
 		tot.len1 += w.len1
 		tot.edgeZero += w.edgeZero
 		tot.edgeNeg += w.edgeNeg
@@ -488,6 +496,8 @@ func runRingSeeded(idx int, g group) {
 	}
 	tot.flushCounts("ring.seeded.")
 	rec.Count("ring.seeded.steps", steps)
+	rec.Count("ring.seeded.do_with_mutating_callback_compared", tot.doReent)
+	rec.Count("ring.seeded.do_with_mutating_callback_not_terminating_in_reference", tot.doSkipped)
 	rec.Count("ring.seeded.sequences", g.n)
 }
 
